@@ -261,6 +261,7 @@ class DirState:
         if s.cipher == "RC4":
             self.rc4 = Cipher(ARC4(key), mode=None).encryptor()
         self.chain = iv  # CBC residue (SSL3 / TLS1.0)
+        self.comp = None  # zlib compressor when DEFLATE (RFC 3749) was negotiated: one stream per direction, sync-flushed per record
 
     def protect(self, ctype, data, rec_ver=None, pad13=0, extra_pad_blocks=0):
         """returns the record body (what follows the 5-byte header) and the outer content type"""
@@ -268,6 +269,9 @@ class DirState:
         rv = rec_ver if rec_ver is not None else (TLS12 if ver == TLS13 else ver)
         seq = self.seq
         self.seq += 1
+        if self.comp is not None and ver != TLS13:
+            import zlib
+            data = self.comp.compress(data) + self.comp.flush(zlib.Z_SYNC_FLUSH)
         if ver == TLS13:
             inner = data + bytes([ctype]) + b"\x00" * pad13
             ln = len(inner) + s.tag
